@@ -147,7 +147,7 @@ impl Container {
     // Create the RAII guard at the beginning of resolution.
     // Its constructor will panic on a circular dependency.
     // Its destructor will clean up the stack automatically when `get` returns.
-    let _guard = ResolutionGuard::new(key.clone());
+    let _guard = ResolutionGuard::new(self as *const Self as usize, key.clone());
 
     let provider_ref = self.providers.get(&key)?;
     let provider = provider_ref.value();
